@@ -223,6 +223,9 @@ pub fn suite_pkgrules(ctx: &Ctx, thorough: bool) {
     let mut names: Vec<String> = all_scalars().map(|c| c.to_string()).collect();
     names.extend(short_strings(&['a', 'A', '1', '-', '_', '.', 'Æ', 'ǅ'], if thorough { 6 } else { 4 }));
     names.extend(scaled_words(thorough, &["a", "A", "é", "É", "Σ", "-", "a_"], &["A", "Æ", "ǅ", "İ", "Σ", "ΑΣ", "Σ.", "_.", "-", "--", "."]));
+    // names that look like the combined spelling of another ecosystem (`group:artifact`, `scope/name`, a Go major-version suffix):
+    // a name is a name, whatever it looks like
+    for n in ["a:b", "org.apache.commons:io", ":a", "a:", "a:b:c", "@scope/name", "a/b", "/a", "a/", "x/v2", "A:B"] { names.push(n.to_string()); }
     let types = all_package_types();
     par_for(names.len(), &|i| {
         let name = &names[i];
@@ -680,6 +683,10 @@ pub fn suite_eq(ctx: &Ctx, thorough: bool) {
         corpus.push(b.replace("/a/n", "/n@a"));
         // a '/' inside the NAME next to a namespace: a different PURL than the one with that segment in the namespace
         corpus.push(b.replace("a/n", "a/x%2Fn")); corpus.push(b.replace("a/n", "a/x/n")); corpus.push(b.replace("b/n", "b%2Fn"));
+    }
+    // blanks and line ends at the ends of a component are part of it: such values differ from the trimmed ones, in value and in string
+    for (a, b) in [("n@1", "n@1%0A"), ("n@1", "n@1%20"), ("n@1", "n@%201"), ("n", "n%20"), ("a/n", "%20a/n"), ("n?k=v", "n?k=v%20"), ("n?k=v", "n?k=%09v"), ("n#s", "n#s%20"), ("n#s", "n#%0As")] {
+        corpus.push(format!("pkg:t/{a}")); corpus.push(format!("pkg:t/{b}"));
     }
     // keys that differ, at one position, in a letter against each non-letter of the key alphabet (and in letter case): the
     // hand-written comparisons of the key type and the derived ones must give ONE order
